@@ -1,9 +1,206 @@
 import CvssVerif.Model.V3
 import CvssVerif.Model.V2
-/- extension operations of the driver (tables, field-set scoring, histories, reports) -/
+import CvssVerif.Spec.Grammar3
+import CvssVerif.Spec.Grammar2
+/-
+  Extension operations of the driver.
+  `SPEC3` / `SPEC2`: the *specification's* verdict on a string (model-independent oracle used
+  by check.py to decide whether a disagreement is a violation of the property).
+-/
 namespace Drv
 open CvssVerif
 
-def runOpExt (_f : List String) : Option String := none
+def levelOf' (s : String) : Option Level :=
+  if s == "B" then some .base else if s == "T" then some .temporal
+  else if s == "E" then some .environmental else none
+
+def lvlsUpTo (L : Level) : List Level := Level.all.filter fun l => l.le L
+def cj (xs : List String) : String := ",".intercalate xs
+
+def sev3Name : Spec3.Sev → String
+  | .none => "None" | .low => "Low" | .medium => "Medium" | .high => "High" | .critical => "Critical"
+def sev2Name : Spec2.Sev → String
+  | .low => "Low" | .medium => "Medium" | .high => "High"
+
+def spec3 (L : Level) (s : Bytes) : String :=
+  if Spec3.wf3 L s then
+    let ms := Spec3.metricsOf L
+    let fc := cj (ms.map fun m => bytesToStr (Spec3.expectedCode m s))
+    match Spec3.vecOf s with
+    | none => "acc=1 vec=NONE"
+    | some (b, t, n) =>
+      let kb := Spec3.baseTenths b
+      let kt := Spec3.temporalTenths b t
+      let ke := Spec3.envTenths b t n
+      let ks := [kb, kt, ke].take (L.toNat + 1)
+      let canon := cj ((lvlsUpTo L).map fun l => toHex (Spec3.canon3 l s))
+      s!"acc=1 vl={bytesToStr (Spec3.label s)} fc={fc} k={cj (ks.map toString)} svn={cj (ks.map fun k => sev3Name (Spec3.band k))} canon={canon}"
+  else
+    let ds := Err.all.filter fun e => Spec3.defect3 L e s
+    s!"acc=0 allowed={"+".intercalate (ds.map Err.tag)}"
+
+def compactSpec (line : String) : String :=
+  let keep := ["acc", "k", "svn", "okb", "okt", "oke", "neg", "g", "allowed"]
+  " ".intercalate ((line.splitOn " ").filter fun tok =>
+    match tok.splitOn "=" with
+    | k :: _ :: _ => keep.contains k
+    | _ => false)
+
+def okStr (b : Bool) : String := if b then "1" else "0"
+
+/-- admissible adjusted-temporal scores given the (unobservable) adjusted base score -/
+def envChainOK (b : Spec2.BaseVec) (t : Option Spec2.TempVec) (n : Spec2.EnvVec) (ke : Int) : Bool :=
+  let cands : List Int := (List.range 141).map fun i => Int.ofNat i - 40     -- -4.0 … 10.0
+  cands.any fun kb => Spec2.okAdjBase b n kb &&
+    cands.any fun kt => Spec2.okTemporal kb t kt && Spec2.isRound1 (Spec2.envRaw kt n) ke
+
+def spec2 (L : Level) (s : Bytes) (kb kt ke : Option Int) : String :=
+  if Spec2.canon2 L s then
+    let ms := Spec2.metricsOf L
+    let fc := cj (ms.map fun m => bytesToStr ((Spec2.written m s).getD []))
+    let canon := toHex s
+    match Spec2.baseOf s with
+    | none => "acc=1 vec=NONE"
+    | some b =>
+      let t := if Spec2.hasGroup Spec2.tempG s then Spec2.tempOf s else none
+      let n := if Spec2.hasGroup Spec2.envG s then Spec2.envOf s else none
+      let okb := match kb with | some k => okStr (Spec2.okBase b k) | none => "x"
+      let okt := match kb, kt with
+        | some k, some k' => okStr (Spec2.okTemporal k t k') | _, _ => "x"
+      let oke := match kt, ke, n with
+        | some k', some k'', none => okStr (k'' == k')
+        | _, some k'', some n => okStr (envChainOK b t n k'')
+        | _, _, _ => "x"
+      let neg := match n with
+        | some n => okStr (decide (Spec2.adjustedBaseRaw b n < 0))
+        | none => "0"
+      let g := okStr t.isSome ++ okStr n.isSome
+      s!"acc=1 fc={fc} g={g} okb={okb} okt={okt} oke={oke} neg={neg} canon={canon}"
+  else
+    let ds := Err.all.filter fun e => Spec2.defect2 L e s
+    s!"acc=0 allowed={"+".intercalate (ds.map Err.tag)}"
+
+def optInt (s : String) : Option Int := s.toInt?
+
+/-! ### table operations (C20) -/
+def hex16' (n : Nat) : String :=
+  String.ofList ((List.range 16).reverse.map fun i => hexDigit ((n >>> (4 * i)) % 16))
+
+def m3OfName (s : String) : Option V3.M3 := V3.M3.all.find? fun m => bytesToStr m.spec.name == s
+def m2OfName (s : String) : Option V2.M2 := V2.M2.all.find? fun m => bytesToStr m.spec.name == s
+
+def b2f (b : Bool) : Nat := if b then F64.one else 0
+
+/-- `Value()` for every argument combination the Go method takes (same order as the harness) -/
+def vals3 (m : V3.M3) (v : Int) : List Nat :=
+  let r (n : Nat) : List Int := (List.range n).map Int.ofNat
+  match m with
+  | .PR => (r 3).map fun s => V3.valuePR v s
+  | .S => [b2f (v == 2)]
+  | .MAV => (r 6).map fun b => V3.valueMAV v b
+  | .MAC => (r 6).map fun b => V3.valueMAC v b
+  | .MUI => (r 6).map fun b => V3.valueMUI v b
+  | .MPR => (r 5).flatMap fun ms => (r 4).flatMap fun s => (r 5).map fun pr => V3.valueMPR v ms s pr
+  | .MS => (r 4).map fun b => b2f (V3.msIsChanged v b)
+  | .MC => (r 6).map fun b => V3.valueMCIA .MC v b
+  | .MI => (r 6).map fun b => V3.valueMCIA .MI v b
+  | .MA => (r 6).map fun b => V3.valueMCIA .MA v b
+  | m => [V3.value0 m v]
+
+/-- v2: `IsUnknown()` of base metrics is (sic) `!= Unknown`, `IsValid()` is `!= Invalid` -/
+def tab3 (m : V3.M3) (op arg : String) : Option String :=
+  if op == "get" then do
+    let s ← ofHex arg; pure s!"get={m.spec.get s}"
+  else if op == "val" then do
+    let v ← arg.toInt?
+    pure s!"str={toHex (m.spec.str v)} valid={if V3.isValid m v then "1" else "0"} val={cj ((vals3 m v).map hex16')}"
+  else none
+
+def tab2 (m : V2.M2) (op arg : String) : Option String :=
+  if op == "get" then do
+    let s ← ofHex arg; pure s!"get={m.spec.get s}"
+  else if op == "val" then do
+    let v ← arg.toInt?
+    pure s!"str={toHex (m.spec.str v)} valid={if v != 0 then "1" else "0"} val={hex16' (V2.value m v)}"
+  else none
+
+def tabVer (op arg : String) : Option String :=
+  if op == "get" then do
+    let s ← ofHex arg
+    let gv := match V3.getVersion s with
+      | .ok v => s!"{v}|-"
+      | .error e => s!"0|{e.tag}"
+    pure s!"gv={gv} num={V3.verGet s}"
+  else if op == "str" then do
+    let v ← arg.toInt?
+    pure s!"vstr={toHex (V3.verStr v)} nstr={toHex (V3.verStr v)}"
+  else none
+
+/-! ### specification tables (C20 oracle) -/
+def ratStr (x : Rat) : String := if x.den == 1 then toString x.num else s!"{x.num}/{x.den}"
+def codesStr (cs : List Bytes) : String := cj (cs.map bytesToStr)
+
+def spect3 (name : String) : Option String :=
+  let w {α : Type} (all : List α) (code : α → Bytes) (wt : α → Rat) (extra : String := "") : String :=
+    s!"codes={codesStr (all.map code)} w={cj (all.map fun a => ratStr (wt a))}{extra}"
+  let wm {α : Type} (all : List α) (code : α → Bytes) (wt : α → Rat) (base : String) : String :=
+    s!"codes=X,{codesStr (all.map code)} w=0,{cj (all.map fun a => ratStr (wt a))} base={base}"
+  open Spec3 in
+  match name with
+  | "AV" => some (w [AV.N, .A, .L, .P] AV.code wAV)
+  | "AC" => some (w [AC.L, .H] AC.code wAC)
+  | "PR" => some s!"codes=N,L,H wU={cj ([PR.N, .L, .H].map fun a => ratStr (wPR .U a))} wC={cj ([PR.N, .L, .H].map fun a => ratStr (wPR .C a))}"
+  | "UI" => some (w [UI.N, .R] UI.code wUI)
+  | "S" => some "codes=U,C"
+  | "C" | "I" | "A" => some (w [CIA.H, .L, .N] CIA.code wCIA)
+  | "E" => some (w [E.X, .H, .F, .P, .U] E.code wE)
+  | "RL" => some (w [RL.X, .U, .W, .T, .O] RL.code wRL)
+  | "RC" => some (w [RC.X, .C, .R, .U] RC.code wRC)
+  | "CR" | "IR" | "AR" => some (w [Req.X, .H, .M, .L] Req.code wReq)
+  | "MAV" => some (wm [AV.N, .A, .L, .P] AV.code wAV "AV")
+  | "MAC" => some (wm [AC.L, .H] AC.code wAC "AC")
+  | "MPR" => some "codes=X,N,L,H"
+  | "MUI" => some (wm [UI.N, .R] UI.code wUI "UI")
+  | "MS" => some "codes=X,U,C"
+  | "MC" => some (wm [CIA.H, .L, .N] CIA.code wCIA "C")
+  | "MI" => some (wm [CIA.H, .L, .N] CIA.code wCIA "I")
+  | "MA" => some (wm [CIA.H, .L, .N] CIA.code wCIA "A")
+  | _ => none
+
+def spect2 (name : String) : Option String :=
+  let w {α : Type} (all : List α) (code : α → Bytes) (wt : α → Rat) : String :=
+    s!"codes={codesStr (all.map code)} w={cj (all.map fun a => ratStr (wt a))}"
+  open Spec2 in
+  match name with
+  | "AV" => some (w [AV.L, .A, .N] AV.code wAV)
+  | "AC" => some (w [AC.H, .M, .L] AC.code wAC)
+  | "Au" => some (w [Au.M, .S, .N] Au.code wAu)
+  | "C" | "I" | "A" => some (w [CIA.N, .P, .C] CIA.code wCIA)
+  | "E" => some (w [E.U, .POC, .F, .H, .ND] E.code wE)
+  | "RL" => some (w [RL.OF, .TF, .W, .U, .ND] RL.code wRL)
+  | "RC" => some (w [RC.UC, .UR, .C, .ND] RC.code wRC)
+  | "CDP" => some (w [CDP.N, .L, .LM, .MH, .H, .ND] CDP.code wCDP)
+  | "TD" => some (w [TD.N, .L, .M, .H, .ND] TD.code wTD)
+  | "CR" | "IR" | "AR" => some (w [Req.L, .M, .H, .ND] Req.code wReq)
+  | _ => none
+
+def runOpExt (f : List String) : Option String :=
+  match f with
+  | ["SPEC3", l, h] => do
+      let L ← levelOf' l; let s ← ofHex h; pure (spec3 L s)
+  | ["SPECS3", l, h] => do
+      let L ← levelOf' l; let s ← ofHex h; pure (compactSpec (spec3 L s))
+  | ["SPECS2", l, h, kb, kt, ke] => do
+      let L ← levelOf' l; let s ← ofHex h; pure (compactSpec (spec2 L s (optInt kb) (optInt kt) (optInt ke)))
+  | ["SPEC2", l, h, kb, kt, ke] => do
+      let L ← levelOf' l; let s ← ofHex h; pure (spec2 L s (optInt kb) (optInt kt) (optInt ke))
+  | ["SPEC2", l, h] => do
+      let L ← levelOf' l; let s ← ofHex h; pure (spec2 L s none none none)
+  | ["T3", m, op, arg] => do let m ← m3OfName m; tab3 m op arg
+  | ["T2", m, op, arg] => do let m ← m2OfName m; tab2 m op arg
+  | ["TV", op, arg] => tabVer op arg
+  | ["SPECT3", m] => spect3 m
+  | ["SPECT2", m] => spect2 m
+  | _ => none
 
 end Drv
